@@ -159,9 +159,11 @@ WRAP:
 		}
 		// Advance to the start of the next hour on the wall clock. This is one hour unless a DST change of a
 		// fraction of an hour (for example Australia/Lord_Howe) left t in the middle of an hour.
+		day := t.Day()
 		t = t.Add(time.Duration(60-t.Minute()) * time.Minute)
 
-		if t.Hour() == 0 {
+		// A new day has begun (not necessarily at hour 0: midnight does not exist on a day whose DST change is at 00:00)
+		if t.Day() != day {
 			goto WRAP
 		}
 	}
